@@ -555,6 +555,13 @@ fn flat_iter(files: &[FileGroup<FileInfo>]) -> impl ParallelIterator<Item = &Fil
     files.par_iter().flat_map(|g| &g.files)
 }
 
+/// Verification hook: process-wide identifiers of rehash invocations and hashing tasks.
+#[cfg(fclones_verif)]
+fn verif_next_id() -> usize {
+    static NEXT: AtomicUsize = AtomicUsize::new(1);
+    NEXT.fetch_add(1, Ordering::SeqCst)
+}
+
 /// Groups files by length and hash computed by given `hash_fn`.
 /// Runs in parallel on dedicated thread pools.
 /// Files on different devices are hashed separately from each other.
@@ -583,6 +590,11 @@ where
     let hash_fn: &HashFn<'a> = &hash_fn;
 
     let (tx, rx): (Sender<HashedFileInfo>, Receiver<HashedFileInfo>) = channel();
+
+    #[cfg(fclones_verif)]
+    let verif_rh = verif_next_id();
+    #[cfg(fclones_verif)]
+    crate::verif::emit("RehashStart", &format!("\"rh\":{verif_rh}"));
 
     // There is no point in processing groups containing a single file.
     // Normally when searching for duplicates such groups are filtered out automatically after
@@ -631,6 +643,15 @@ where
                 // in our vector. Without this limit we observed over 20% more memory use
                 // when processing 1M of files.
                 let semaphore = Arc::new(Semaphore::new(8 * thread_count));
+                #[cfg(fclones_verif)]
+                crate::verif::emit(
+                    "DeviceStart",
+                    &format!(
+                        "\"rh\":{verif_rh},\"dev\":{},\"threads\":{thread_count},\"sem\":{}",
+                        device.index,
+                        Arc::as_ptr(&semaphore) as usize
+                    ),
+                );
 
                 // Run hashing on the thread-pool dedicated to the device.
                 // Group files by their identifiers so we hash only one file per unique id.
@@ -638,6 +659,17 @@ where
                     let mut fg = fg.collect_vec();
                     let tx = tx.clone();
                     let guard = semaphore.clone().access_owned();
+                    #[cfg(fclones_verif)]
+                    let verif_task = verif_next_id();
+                    #[cfg(fclones_verif)]
+                    crate::verif::emit(
+                        "TaskSpawn",
+                        &format!(
+                            "\"rh\":{verif_rh},\"dev\":{},\"task\":{verif_task},\"n\":{}",
+                            device.index,
+                            fg.len()
+                        ),
+                    );
 
                     // Spawning a task into a thread-pool requires a static lifetime,
                     // because generally the task could outlive caller's stack frame.
@@ -650,8 +682,12 @@ where
                     // when the pool has only one thread.
                     let hash_fn: &HashFn<'static> = unsafe { std::mem::transmute(hash_fn) };
                     thread_pool.spawn_fifo(move || {
+                        #[cfg(fclones_verif)]
+                        crate::verif::emit("TaskStart", &format!("\"rh\":{verif_rh},\"task\":{verif_task}"));
                         let _open_files_guard = RLIMIT_OPEN_FILES.clone().access_owned();
                         let old_hash = fg[0].file_hash.clone();
+                        #[cfg(fclones_verif)]
+                        let mut verif_sent = 0;
                         if let Some(hash) = hash_fn((&mut fg[0].file_info, old_hash)) {
                             // The hash function may update the length (transformed data):
                             // all paths of the same file must carry the same length and hash,
@@ -661,8 +697,17 @@ where
                                 f.file_info.len = len;
                                 f.file_hash = hash.clone();
                                 tx.send(f).unwrap();
+                                #[cfg(fclones_verif)]
+                                {
+                                    verif_sent += 1;
+                                }
                             }
                         }
+                        #[cfg(fclones_verif)]
+                        crate::verif::emit(
+                            "TaskDone",
+                            &format!("\"rh\":{verif_rh},\"task\":{verif_task},\"sent\":{verif_sent}"),
+                        );
                         // This forces moving the guard into this task and be released when
                         // the task is done
                         drop(guard);
@@ -676,9 +721,20 @@ where
 
         // Collect the results from all threads and group them.
         // Note that this will happen as soon as data are available
+        #[cfg(fclones_verif)]
+        let mut verif_received = 0;
         while let Ok(hashed_file) = rx.recv() {
             hash_map_ref.add(hashed_file);
+            #[cfg(fclones_verif)]
+            {
+                verif_received += 1;
+            }
         }
+        #[cfg(fclones_verif)]
+        crate::verif::emit(
+            "CollectorEnd",
+            &format!("\"rh\":{verif_rh},\"received\":{verif_received}"),
+        );
     })
     .unwrap();
 
